@@ -34,7 +34,18 @@ pub enum X {
     Bin(&'static str, Box<X>, Box<X>),
     Case(Vec<(X, X)>),
     In(Box<X>, i64, i64),
+    /// a function of one operand, by key into FN1 (`abs`, `log2`, `inlist`)
     Abs(Box<X>),
+    Fn1(&'static str, Box<X>),
+    /// the literal -1 reaching its place of use through a column derived one step earlier (`derive {kneg = -1}`)
+    NamedNeg,
+}
+
+/// (key, PRQL text with § for the fully parenthesised operand, result type)
+pub const FN1: &[(&str, &str, Ty)] = &[("log2", "(math.log 2 §)", Ty::Num), ("inlist", "(§ | in [1, 2])", Ty::Bool)];
+
+fn fn1(key: &str) -> &'static (&'static str, &'static str, Ty) {
+    FN1.iter().find(|f| f.0 == key).expect("fn1 key")
 }
 
 pub const ARITH: &[&str] = &["**", "*", "/", "//", "%", "+", "-"];
@@ -102,6 +113,8 @@ fn pr_min(x: &X) -> String {
         X::Case(arms) => format!("(case [{}])", arms.iter().map(|(c, v)| format!("{} => {}", pr_min(c), pr_min(v))).collect::<Vec<_>>().join(", ")),
         X::In(e, lo, hi) => format!("({} | in {lo}..{hi})", pr_full(e)),
         X::Abs(e) => format!("(math.abs {})", pr_full(e)),
+        X::Fn1(k, e) => fn1(k).1.replace('§', &pr_full(e)),
+        X::NamedNeg => "kneg".into(),
     }
 }
 
@@ -109,7 +122,7 @@ fn pr_min(x: &X) -> String {
 /// parenthesisation is mandatory anyway)
 fn pr_full(x: &X) -> String {
     match x {
-        X::Col(..) | X::Lit(..) | X::Null => {
+        X::Col(..) | X::Lit(..) | X::Null | X::NamedNeg => {
             let s = pr_min(x);
             if s.starts_with('-') {
                 format!("({s})")
@@ -125,7 +138,7 @@ fn count_cols(x: &X, c: &mut Cols) {
     match x {
         X::Col(Ty::Num, i) => c.n = c.n.max(i + 1),
         X::Col(Ty::Bool, i) => c.b = c.b.max(i + 1),
-        X::Un(_, e) | X::Abs(e) | X::In(e, ..) => count_cols(e, c),
+        X::Un(_, e) | X::Abs(e) | X::Fn1(_, e) | X::In(e, ..) => count_cols(e, c),
         X::Bin(_, l, r) => {
             count_cols(l, c);
             count_cols(r, c)
@@ -153,7 +166,7 @@ struct Gen<'a> {
 
 impl Gen<'_> {
     fn leaf(&mut self, ty: Ty) -> Option<X> {
-        let k = if self.lit_budget > 0 { self.c.choose(match ty { Ty::Num => 5, Ty::Bool => 2 }, "leaf") } else { 0 };
+        let k = if self.lit_budget > 0 { self.c.choose(match ty { Ty::Num => 6, Ty::Bool => 2 }, "leaf") } else { 0 };
         if k != 0 {
             self.lit_budget -= 1;
         }
@@ -168,6 +181,7 @@ impl Gen<'_> {
             (Ty::Num, 1) => X::Lit(Ty::Num, "2"),
             (Ty::Num, 2) => X::Lit(Ty::Num, "-1"),
             (Ty::Num, 3) => X::Lit(Ty::Num, "0.5"),
+            (Ty::Num, 4) => X::NamedNeg,
             // the same value as the integer literal 2, spelled as a float
             (Ty::Num, _) => X::Lit(Ty::Num, "2.0"),
             (Ty::Bool, 0) => {
@@ -208,8 +222,8 @@ impl Gen<'_> {
         let kinds: Vec<&'static str> = match (ty, self.binary_only) {
             (Ty::Num, true) => vec!["leaf", "arith", "coalesce"],
             (Ty::Bool, true) => vec!["leaf", "cmp", "logic", "coalesce", "eqbool"],
-            (Ty::Num, false) => vec!["leaf", "arith", "coalesce", "neg", "pos", "case", "abs", "coalesce-null"],
-            (Ty::Bool, false) => vec!["leaf", "cmp", "logic", "coalesce", "eqbool", "not", "isnull", "notnull", "nullis", "in", "case"],
+            (Ty::Num, false) => vec!["leaf", "arith", "coalesce", "neg", "pos", "case", "abs", "coalesce-null", "log2"],
+            (Ty::Bool, false) => vec!["leaf", "cmp", "logic", "coalesce", "eqbool", "not", "isnull", "notnull", "nullis", "in", "case", "inlist"],
         };
         let k = *self.c.pick(&kinds, "kind");
         let sub = depth - 1;
@@ -248,6 +262,8 @@ impl Gen<'_> {
             "nullis" => X::Bin("==", Box::new(X::Null), Box::new(self.expr(Ty::Num, sub)?)),
             "in" => X::In(Box::new(self.expr(Ty::Num, sub)?), 1, 2),
             "abs" => X::Abs(Box::new(self.expr(Ty::Num, sub)?)),
+            "log2" => X::Fn1("log2", Box::new(self.expr(Ty::Num, sub)?)),
+            "inlist" => X::Fn1("inlist", Box::new(self.expr(Ty::Num, sub)?)),
             "case" => {
                 let two = self.c.flag("two-arms");
                 let mut arms = vec![(self.expr(Ty::Bool, sub.min(1))?, self.expr(ty, sub)?)];
@@ -263,8 +279,8 @@ impl Gen<'_> {
 
 fn depth_of(x: &X) -> usize {
     match x {
-        X::Col(..) | X::Lit(..) | X::Null => 0,
-        X::Un(_, e) | X::Abs(e) | X::In(e, ..) => 1 + depth_of(e),
+        X::Col(..) | X::Lit(..) | X::Null | X::NamedNeg => 0,
+        X::Un(_, e) | X::Abs(e) | X::Fn1(_, e) | X::In(e, ..) => 1 + depth_of(e),
         X::Bin(_, l, r) => 1 + depth_of(l).max(depth_of(r)),
         X::Case(a) => 1 + a.iter().map(|(c, v)| depth_of(c).max(depth_of(v))).max().unwrap_or(0),
     }
@@ -283,7 +299,9 @@ fn table_name(n: usize, b: usize) -> String {
 
 /// compile `from <tbl> | select {id, r = <expr>}` and return the whole SQL
 fn compile_select(tbl: &str, expr: &str, d: Dialect) -> Result<String, String> {
-    let src = format!("from {tbl} | select {{id, r = {expr}}}");
+    // (word match: `kneg` is the column that carries the literal -1)
+    let prelude = if replace_word(expr, "kneg", "") != expr { "derive {kneg = -1} | " } else { "" };
+    let src = format!("from {tbl} | {prelude}select {{id, r = {expr}}}");
     match guard(|| prqlc::compile(&src, &opts(d))) {
         Ok(Ok(s)) => Ok(s),
         Ok(Err(e)) => Err(err_text(&e)),
@@ -347,6 +365,9 @@ impl Atoms {
         add("notnull", "x != null", &[("x", "@0")])?;
         add("in", "(x | in 1..2)", &[("x", "@0")])?;
         add("abs", "(math.abs x)", &[("x", "@0")])?;
+        for (k, t, _) in FN1 {
+            add(k, &t.replace('§', "x"), &[("x", "@0")])?;
+        }
         add("case1", "case [p => x]", &[("p", "@0"), ("x", "@1")])?;
         add("case2", "case [p => x, q => y]", &[("p", "@0"), ("x", "@1"), ("q", "@2"), ("y", "@3")])?;
         for lit in ["2", "-1", "0.5", "2.0", "true", "null"] {
@@ -371,7 +392,8 @@ impl Atoms {
                 X::Col(t, _) | X::Lit(t, _) => *t,
                 X::Null => Ty::Num,
                 X::Un("!", _) => Ty::Bool,
-                X::Un(..) | X::Abs(_) => Ty::Num,
+                X::Un(..) | X::Abs(_) | X::NamedNeg => Ty::Num,
+                X::Fn1(k, _) => fn1(k).2,
                 X::In(..) => Ty::Bool,
                 X::Bin(op, l, r) => {
                     if ARITH.contains(op) {
@@ -396,6 +418,8 @@ impl Atoms {
             X::Null => self.inst("lit:null", &[]),
             X::Un(op, e) => self.inst(&format!("un:{op}"), &[self.expected(e)]),
             X::Abs(e) => self.inst("abs", &[self.expected(e)]),
+            X::Fn1(k, e) => self.inst(k, &[self.expected(e)]),
+            X::NamedNeg => self.inst("lit:-1", &[]),
             X::In(e, ..) => self.inst("in", &[self.expected(e)]),
             X::Bin(op, l, r) => {
                 if matches!(**r, X::Null) && *op == "==" {
@@ -533,6 +557,8 @@ fn pairs(x: &X, out: &mut Vec<(String, String, &'static str)>) {
             X::In(..) => Some("in".into()),
             X::Case(_) => Some("case".into()),
             X::Abs(_) => Some("abs".into()),
+            X::Fn1(k, _) => Some(k.to_string()),
+            X::NamedNeg => Some("named-neglit".into()),
             X::Lit(_, l) if l.starts_with('-') => Some("neglit".into()),
             _ => None,
         }
@@ -549,7 +575,7 @@ fn pairs(x: &X, out: &mut Vec<(String, String, &'static str)>) {
             kid(l, "L", out);
             kid(r, "R", out);
         }
-        X::Un(_, e) | X::Abs(e) | X::In(e, ..) => kid(e, "L", out),
+        X::Un(_, e) | X::Abs(e) | X::Fn1(_, e) | X::In(e, ..) => kid(e, "L", out),
         X::Case(a) => a.iter().for_each(|(c, v)| {
             kid(c, "L", out);
             kid(v, "R", out)
@@ -769,7 +795,8 @@ fn foldable(x: &X) -> bool {
         X::Lit(..) => true,
         X::Null => false,
         X::Col(..) => false,
-        X::Un(_, e) | X::Abs(e) | X::In(e, ..) => foldable(e),
+        X::Un(_, e) | X::Abs(e) | X::Fn1(_, e) | X::In(e, ..) => foldable(e),
+        X::NamedNeg => true,
         X::Bin(op, l, r) => (*op == "??" && (matches!(**l, X::Null) || matches!(**r, X::Null))) || foldable(l) || foldable(r),
         X::Case(a) => a.iter().any(|(c, v)| foldable(c) || foldable(v)),
     }
